@@ -735,6 +735,9 @@ def scale_families():
     for L in (23, 24, 25, 31, 32, 33, 63, 64, 65, 255, 256, 257, 1000, 5000):
         k = 'k' * L
         fams["long_key_%d" % L] = [((k, '1'),), ((k, 's'),), ((k + 'x', '1'),), ((k[:-1], '1'), (k, '1')), ((k, '1'), (k + 'x', 's'))]
+    # member names that differ only by white space (inside the name), by a final / initial space, by NBSP vs space
+    fams["whitespace_keys"] = [(('first name', 's'),), (('firstname', 's'),), (('first  name', 's'),), ((' firstname', '1'),),
+                               (('firstname ', 's'),), (('first\u00a0name', 's'),), (('first name', 's'), ('firstname', '1'))]
     p = "shared_prefix_" * 6
     fams["prefix_keys"] = [((p + 'a', '1'), (p + 'b', 's')), ((p + 'a', 's'), (p + 'b', 's')), ((p + 'a', '1'),), ((p + 'b', 's'), (p + 'c', 't')),
                            ((p, '1'), (p + 'a', '1'))]
@@ -790,13 +793,36 @@ def scale_shape_pools():
         _SCALE_CACHE["pools"] = pools
     return _SCALE_CACHE["pools"]
 
+def wide_object_shape_pairs():
+    """hand-built (source, target) object shapes for the subset checks: a target of n members with a pattern of
+    optional members (none / last / last-but-one / first / middle / every other / all but the last), and sources
+    that lack one member, two members (among the first and last three), or exactly the optional ones.  Inferred
+    shapes only make a member optional where a document lacked it; these patterns put required members AFTER
+    optional ones, at the ends, next to each other - at widths on both sides of any plausible threshold."""
+    num, st = ('#', False), ('S', False)
+    out = []
+    for n in (3, 8, 9, 20, 21, 22, 33, 65):
+        names = ["k%02d" % i for i in range(n)]
+        pats = {"none": set(), "last": {n - 1}, "last_but_one": {n - 2}, "first": {0}, "middle": {n // 2},
+                "every_other": set(range(0, n, 2)), "all_but_last": set(range(n - 1)), "last_two": {n - 2, n - 1}}
+        for opt in pats.values():
+            target = ('O', False, tuple((k, ((num if i % 2 else st)[0], i in opt)) for i, k in enumerate(names)))
+            full = ('O', False, tuple((k, ((num if i % 2 else st)[0], False)) for i, k in enumerate(names)))
+            drops = [{i} for i in (0, 1, n // 2, n - 3, n - 2, n - 1) if 0 <= i < n]
+            drops += [{n - 2, n - 1}, {0, n - 1}, {0, 1}, set(opt), set(opt) | {n - 1}, set(opt) - {min(opt)} if opt else set()]
+            for dr in drops:
+                src = ('O', False, tuple(m for i, m in enumerate(full[2]) if i not in dr))
+                out.append((sh_str(norm_sh(src)), sh_str(norm_sh(target))))
+                out.append((sh_str(norm_sh(('O', True) + src[2:])), sh_str(norm_sh(('O', True) + target[2:]))))
+    return list(dict.fromkeys(out))
+
 def scale_shapes():
     """distinct shape strings of the scale stream"""
     return list(dict.fromkeys(t for p in scale_shape_pools().values() for t in p))
 
 def scale_shape_pairs():
     """ordered pairs of shape strings inside each scale family (related shapes: one is often a widening of the other)"""
-    return [(a, b) for p in scale_shape_pools().values() for a in p for b in p]
+    return [(a, b) for p in scale_shape_pools().values() for a in p for b in p] + wide_object_shape_pairs()
 
 
 def respell(rng, k, p=0.45):
